@@ -3,6 +3,7 @@ from hypothesis import strategies as st
 
 from pbt import strategies as S
 from pbt.lib import body, call, frame, header, heartbeat
+from pbt.props import c16
 from pbt.runner import Component, Violation
 
 PROPERTY_ID = 'C18'
@@ -198,6 +199,12 @@ COMPONENTS = [
               budget={'quick': 3200, 'thorough': 64000},
               describe='one body / protocol-header object encoded, re-assigned, encoded '
                        'again'),
+    Component('first-use-threads', c16.check_saturation,
+              cases=c16.first_use_sweep(['decode-frames', 'frames', 'headers']),
+              distinct_by_construction=True,
+              describe='body / method / header frames decoded and encoded as the very '
+                       'first calls of a pristine process by 2-3 threads, one of them '
+                       '0..59 traced lines ahead; results vs a fresh interpreter'),
     Component('heartbeats', check_heartbeat, cases=heartbeat_cases,
               nontrivial=lambda c: c['ch'] != 0, distinct_by_construction=True,
               exhaustive=True, describe='all 65536 channels'),
